@@ -80,7 +80,7 @@ func (e *env) observeViews(c godi.Collection) Views {
 				}
 			}
 		case d.Constructor.IsValid() && d.Constructor.Kind() == reflect.Func:
-			if id, ok := ctorByPtr[d.Constructor.Pointer()]; ok {
+			if id, ok := ctorByPtr[funcValueID(d.Constructor.Interface())]; ok {
 				tp.who = fmt.Sprintf("c%d", id)
 			} else {
 				tp.who = "c?"
